@@ -339,7 +339,11 @@ pub fn plan(prop: &str, tier: &str) -> Option<Plan> {
                 s.push(e2(prop, "zst", H_GOOD, "look+mut+ch1+bulk2+shape2", &fl, 1, "chk", 40.0));
                 s.push(sweep(200_000, 0, 40.0));
                 s.push(sweep(200_000, 3, 40.0));
-                bounds = json!({"E1": "d<=1 at N=64/130; d<=2 at N=31 (4 hashers)", "E2": "fixpoint u=4 / u=3 (HConst) / ZST", "E7": "2*10^5 elements"});
+                // at every resize start the old table is emptied again through the removal APIs (it must be freed
+                // by the call that takes its last element), for 8-byte slots to 6*10^4 elements and 2 KiB slots to 500
+                s.push(crate::plan::sweep(prop, "u32", H_GOOD, 60_000, &["c03", "cursor", "cheap"], &[("drain_old", "1"), ("audit_every", "0")], "chk", 40.0));
+                s.push(crate::plan::sweep(prop, "big", H_GOOD, 500, &["c03", "cursor", "cheap"], &[("drain_old", "1"), ("audit_every", "0")], "chk", 40.0));
+                bounds = json!({"E7-drain": "old table emptied by remove / remove_entry / entry removal at every resize start: u32 to 6*10^4 elements, 2 KiB slots to 500", "E1": "d<=1 at N=64/130; d<=2 at N=31 (4 hashers)", "E2": "fixpoint u=4 / u=3 (HConst) / ZST", "E7": "2*10^5 elements"});
             } else {
                 for &hk in &HS4 {
                     s.push(e1(prop, "u32", hk, 0, a, &fl, 130, 1, 1, "chk", 600.0));
@@ -358,7 +362,12 @@ pub fn plan(prop: &str, tier: &str) -> Option<Plan> {
                 for st in [0, 2, 3, 8] {
                     s.push(sweep(3_000_000, st, 600.0));
                 }
-                bounds = json!({"E1": "d<=1 at N=130; d<=2 at N=64; d<=3 at N=31", "E2": "fixpoint u=6 / u=5 (HConst) / ZST", "E7": "3*10^6 elements, strides {none,2,3,8}"});
+                for &hk in &[H_GOOD, H_TAG] {
+                    s.push(crate::plan::sweep(prop, "u32", hk, 2_000_000, &["c03", "cursor", "cheap"], &[("drain_old", "1"), ("audit_every", "0")], "chk", 900.0));
+                    s.push(crate::plan::sweep(prop, "big", hk, 20_000, &["c03", "cursor", "cheap"], &[("drain_old", "1"), ("audit_every", "0")], "chk", 900.0));
+                }
+                s.push(crate::plan::sweep(prop, "tk", H_GOOD, 200_000, &["c03", "cursor", "cheap"], &[("drain_old", "1"), ("audit_every", "0")], "chk", 900.0));
+                bounds = json!({"E7-drain": "old table emptied through the removal APIs at every resize start: u32 to 2*10^6 elements, Tk to 2*10^5, 2 KiB slots to 2*10^4", "E1": "d<=1 at N=130; d<=2 at N=64; d<=3 at N=31", "E2": "fixpoint u=6 / u=5 (HConst) / ZST", "E7": "3*10^6 elements, strides {none,2,3,8}"});
             }
         }
         "C04" => {
@@ -429,6 +438,9 @@ pub fn plan(prop: &str, tier: &str) -> Option<Plan> {
                     s.push(e2(prop, "zd", H_GOOD, "look+mut+ch1+bulk2+shape2+iterlite", &fl, 1, prof, 45.0));
                     s.push(e1(prop, "big", H_GOOD, 0, "look1+mut+ch1+bulk+shape+iterlite", &fl, if prof == "asan" { 31 } else { 40 }, 1, 1, prof, 45.0));
                     s.push(as_set(e1(prop, "big", H_LOW, 0, "skey+sshape", &fl, 31, 1, 1, prof, 45.0)));
+                    // old tables of every size emptied again through the removal APIs (cursor vs contents)
+                    s.push(sweep(prop, "u32", H_GOOD, if prof == "asan" { 20_000 } else { 60_000 }, &["cursor", "cheap"], &[("drain_old", "1"), ("audit_every", "0")], prof, 45.0));
+                    s.push(sweep(prop, "big", H_GOOD, if prof == "asan" { 300 } else { 500 }, &["cursor", "cheap"], &[("drain_old", "1"), ("audit_every", "0")], prof, 45.0));
                 }
                 bounds = json!({"large elements": "1 KiB, 64-byte-aligned elements (2 KiB map slots) with self-checking padding: d<=1 at N=31..40, map and set", "E1": "Tk: d<=1 at N=64 / d<=2 at N=18 (chk), d<=1 at N=31..48 (asan)", "E2": "fixpoint u=3 (Tk; u=2 for HConst under asan), ZST", "profiles": "asan (optimised, assertions off) and chk (hashbrown debug assertions on)"});
             } else {
@@ -451,6 +463,9 @@ pub fn plan(prop: &str, tier: &str) -> Option<Plan> {
                     s.push(e1(prop, "big", H_LOW, 0, a, &fl, 33, 2, 1, prof, 1200.0));
                     s.push(as_set(e1(prop, "big", H_LOW, 0, "skey+sshape+siter", &fl, 64, 1, 1, prof, 900.0)));
                     s.push(e2(prop, "big", H_GOOD, "look1+mut+ch0+shape2+iterlite", &fl, 4, prof, 1200.0));
+                    s.push(sweep(prop, "u32", H_GOOD, 1_000_000, &["cursor", "cheap"], &[("drain_old", "1"), ("audit_every", "0")], prof, 900.0));
+                    s.push(sweep(prop, "tk", H_LOW, 3_000, &["cursor", "cheap"], &[("drain_old", "1"), ("audit_every", "0")], prof, 900.0));
+                    s.push(sweep(prop, "big", H_GOOD, 10_000, &["cursor", "cheap"], &[("drain_old", "1"), ("audit_every", "0")], prof, 900.0));
                 }
                 bounds = json!({"large elements": "1 KiB, 64-byte-aligned elements: d<=1 at N=130, d<=2 at N=33, E2 u=4", "E1": "Tk: d<=1 at N=130, d<=2 at N=33 (4 hashers, both profiles)", "E2": "fixpoint u=5/4 (Tk), ZST"});
             }
@@ -712,7 +727,11 @@ pub fn plan(prop: &str, tier: &str) -> Option<Plan> {
                 s.extend(mk("u32", H_LOW, 33, 48, 1, 2, 45.0));
                 s.extend(mk("tk", H_CONST, 20, 40, 1, 2, 45.0));
                 s.extend(mk("zst", H_GOOD, 4, 40, 1, 1, 45.0));
-                bounds = json!({"E3-deep": "destinations reached by composing up to 3 shaping calls (retain with 5 structural predicates, shrink_to_fit, reserve, removals) from the growth path at 15/29/30/31 elements, x 24 sources, 4 hashers", "E3": "every ordered (source, destination) pair of a family of <=72 states (growth path to N=33 + states directly after one shaping deviation), hasher seed pairs (1,1),(1,2),(2,1), same/disjoint keys; clone(), clone_from(), and each of 12 divergent calls on either side afterwards"});
+                // HashSet::clone / clone_from (which delegate to the map's)
+                for x in mk("u32", H_GOOD, 33, 60, 1, 2, 45.0).into_iter().chain(mk("tk", H_LOW, 33, 40, 1, 1, 45.0)) {
+                    s.push(as_set(x));
+                }
+                bounds = json!({"sets": "HashSet::clone / clone_from on every ordered pair of <=60 set states (hasher adopted, contents, a working set afterwards)", "E3-deep": "destinations reached by composing up to 3 shaping calls (retain with 5 structural predicates, shrink_to_fit, reserve, removals) from the growth path at 15/29/30/31 elements, x 24 sources, 4 hashers", "E3": "every ordered (source, destination) pair of a family of <=72 states (growth path to N=33 + states directly after one shaping deviation), hasher seed pairs (1,1),(1,2),(2,1), same/disjoint keys; clone(), clone_from(), and each of 12 divergent calls on either side afterwards"});
             } else {
                 for &hk in &HS4 {
                     s.extend(mk("u32", hk, 64, 240, 2, 4, 1500.0));
